@@ -98,7 +98,7 @@ package keeper
 //@   requires stDeposit(ctx, pdwStaker(params), pdwAsset(params)) >= 0 && stWithdrawable(ctx, pdwStaker(params), pdwAsset(params)) >= 0 && stPending(ctx, pdwStaker(params), pdwAsset(params)) >= 0
 //@   requires assetRaw(ctx, pdwAsset(params)) != nil ==> assetTotal(ctx, pdwAsset(params)) >= stDeposit(ctx, pdwStaker(params), pdwAsset(params))
 //@   modifies get(ctx, "assets", stakerKey(pdwStaker(params), pdwAsset(params))), get(ctx, "assets", assetKey(pdwAsset(params)))
-//@   ensures[C09.pdw.atomic]   err != nil ==> state(ctx) == old(state(ctx))
+//@   ensures[C09.pdw.atomic,C01.pdw.atomic] err != nil ==> state(ctx) == old(state(ctx))
 //@   ensures[C01.pdw.deposit]  err == nil && isDeposit(params.Action) && pdwAsset(params) != nativeID() ==>
 //@        stWithdrawable(ctx, pdwStaker(params), pdwAsset(params)) == old(stWithdrawable(ctx, pdwStaker(params), pdwAsset(params))) + val(params.OpAmount) &&
 //@        stDeposit(ctx, pdwStaker(params), pdwAsset(params)) == old(stDeposit(ctx, pdwStaker(params), pdwAsset(params))) + val(params.OpAmount) &&
